@@ -2,8 +2,8 @@
 From ApolloVerif Require Import Base.Chars Str.Unescape Str.Literal Str.Escape.
 
 Theorem C09_empty_description_partial :
-  forall st, serialize_string_value st true [] = SOk [34; 34].
-Proof. intros st. unfold serialize_string_value. destruct (newlines_enabled st); reflexivity. Qed.
+  forall st, se_serialize_string_value st true [] = SuOk [34; 34].
+Proof. intros st. unfold se_serialize_string_value. destruct (se_newlines_enabled st); reflexivity. Qed.
 Check C09_empty_description_partial :
-  forall st, serialize_string_value st true [] = SOk [34; 34].
+  forall st, se_serialize_string_value st true [] = SuOk [34; 34].
 Print Assumptions C09_empty_description_partial.
